@@ -60,6 +60,13 @@ def _judge(got, n, drv):
         out.append(dict(kind='property', key=key, detail=dict(got=got, n=n, spec=spec, nspec=nspec)))
     if got != model or n != nmodel:
         out.append(dict(kind='model', key='label-model', detail=dict(got=got, n=n, model=model, nmodel=nmodel)))
+    if 'addr' in drv:
+        # round 4: the address-level model (flat deltas into the int32 buffer; C03_addr_model_eq_coord) against the real output
+        addr, naddr = core.ints(drv['addr']), int(drv['naddr'])
+        if (got != addr or n != naddr) and not out:
+            out.append(dict(kind='model', key='label-addr-model', detail=dict(got=got, n=n, addr=addr, naddr=naddr)))
+        if drv.get('oob', '0') != '0':
+            raise core.Infra('C03 driver: the address-level scan reads outside the buffer (refuted by C03_addr_reads_in_bounds): ' + str(drv)[:200])
     return out
 
 
@@ -78,7 +85,8 @@ def _eval_single(cases):
         before = Al.copy()
         f = []
         if c.get('out'):
-            out = np.full(A.shape, 7, np.int32)
+            # a dirty caller buffer: union-find sentinels (-1), valid-looking parents, int32 extremes
+            out = np.resize(np.array([7, -1, 0, 2 ** 31 - 1, 1, -2 ** 31, 3], np.int32), A.shape).astype(np.int32)
             lab, n = mh.label(Al, Bc, out=out)
             if lab is not out:
                 f.append(dict(kind='model', key='label:out-not-returned', detail={}))
